@@ -423,8 +423,46 @@ fn eff_cent(d: Decimal) -> Decimal {
     if (r - d).abs() < dec(1, 10) { r } else { d }
 }
 
+// The window scan replaced by its specification value for the history the
+// harness builds (composition: c02_lemma_buy_sale / c03_lemma_buy_buy_sale_sell
+// in superficial_loss.rs prove that the real scan returns exactly this value
+// for these histories; natively -- in replay -- the real scan runs).
+// (present, numerator, denominator, holdings of default and b at end of window
+//  or -1 when the affiliate is not a buyer)
+static mut SPEC_SFL: (bool, i64, i64, i64, i64) = (false, 0, 1, -1, -1);
+fn spec_scan(
+    _idx: usize,
+    _txs: &Vec<Tx>,
+    _st: &AffiliatePortfolioSecurityStatuses,
+) -> Result<Option<super::super::superficial_loss::SflRatioResultResult>, Error> {
+    let (present, num, den, hd, hb) = unsafe { SPEC_SFL };
+    if !present {
+        return Ok(None);
+    }
+    let mut m = HashMap::new();
+    let total = (if hd >= 0 { hd } else { 0 }) + (if hb >= 0 { hb } else { 0 });
+    if total > 0 {
+        if hd >= 0 {
+            m.insert(aff(0), crate::util::math::GezDecimalRatio { numerator: gez(hd, 0), denominator: pos(total, 0) });
+        }
+        if hb >= 0 {
+            m.insert(aff(1), crate::util::math::GezDecimalRatio { numerator: gez(hb, 0), denominator: pos(total, 0) });
+        }
+    }
+    Ok(Some(super::super::superficial_loss::SflRatioResultResult {
+        sfl_ratio: crate::util::math::PosDecimalRatio { numerator: pos(num, 0), denominator: pos(den, 0) },
+        acb_adjust_affiliate_ratios: m,
+        fewer_remaining_shares_than_sfl_shares: total < num,
+    }))
+}
+#[cfg(kani)]
+use crate::kani_model::collections::HashMap;
+#[cfg(not(kani))]
+use std::collections::HashMap;
+
 bk_harness! {
     #[kani::unwind(5)]
+    #[kani::stub(crate::portfolio::bookkeeping::superficial_loss::get_superficial_loss_ratio, spec_scan)]
     fn c02_amount_one_buyer() {
         let x = any_in(1, 15); let b0 = any_in(0, 15);
         let n = any_in(1, 15);
@@ -436,8 +474,9 @@ bk_harness! {
             tx(aff(0), date(SALE_DAY - 5), 0, buy(pos(x, 0), gez(1, 0), gez(0, 0), cad(), None)),
             tx(aff(0), date(SALE_DAY), 1, sell(pos(n, 0), gez(1, 0), gez(0, 0), cad(), None, None)),
         ];
-        let r = get_delta_superficial_loss_info(1, &txs, &st, neg(-loss, 2));
         let held = bd - n;
+        unsafe { SPEC_SFL = (held > 0, min3i(n, x, if held > 0 { held } else { 1 }), n, held, -1); }
+        let r = get_delta_superficial_loss_info(1, &txs, &st, neg(-loss, 2));
         match r {
             Ok(Some((info, adj))) => {
                 vcover!("superficial");
@@ -477,6 +516,7 @@ bk_harness! {
 
 bk_harness! {
     #[kani::unwind(6)]
+    #[kani::stub(crate::portfolio::bookkeeping::superficial_loss::get_superficial_loss_ratio, spec_scan)]
     fn c03_two_buyers_split_in_proportion() {
         // Buy(default) and Buy(b) inside the window, the loss sale by default,
         // then b sells z of its shares (possibly all of them) inside the window.
@@ -494,10 +534,11 @@ bk_harness! {
             tx(aff(0), date(SALE_DAY), 2, sell(pos(n, 0), gez(1, 0), gez(0, 0), cad(), None, None)),
             tx(aff(1), date(SALE_DAY + 3), 3, sell(pos(z, 0), gez(1, 0), gez(0, 0), cad(), None, None)),
         ];
-        let r = get_delta_superficial_loss_info(2, &txs, &st, neg(-loss, 2));
         let hd = bd - n;       // default's end-of-window holding
         let hb = bb - z;       // b's end-of-window holding
         let held = hd + hb;
+        unsafe { SPEC_SFL = (held > 0, min3i(n, x + y, if held > 0 { held } else { 1 }), n, hd, hb); }
+        let r = get_delta_superficial_loss_info(2, &txs, &st, neg(-loss, 2));
         match r {
             Ok(Some((info, adj))) => {
                 vcover!("superficial");
@@ -555,6 +596,7 @@ bk_harness! {
 
 bk_harness! {
     #[kani::unwind(5)]
+    #[kani::stub(crate::portfolio::bookkeeping::superficial_loss::get_superficial_loss_ratio, spec_scan)]
     fn c02_specified_sfl_validated() {
         // the user states the superficial loss on the sale row
         let x = any_in(1, 7); let b0 = any_in(0, 7);
@@ -572,9 +614,10 @@ bk_harness! {
             tx(aff(0), date(SALE_DAY - 5), 0, buy(pos(x, 0), gez(1, 0), gez(0, 0), cad(), None)),
             tx(aff(0), date(SALE_DAY), 1, sell(pos(n, 0), gez(1, 0), gez(0, 0), cad(), None, Some(sfl_in))),
         ];
-        let r = get_delta_superficial_loss_info(1, &txs, &st, neg(-loss, 2));
         let held = bd - n;
         let num = min3i(n, x, held);
+        unsafe { SPEC_SFL = (held > 0, if held > 0 { num } else { 1 }, n, held, -1); }
+        let r = get_delta_superficial_loss_info(1, &txs, &st, neg(-loss, 2));
         // Restricted to full-ratio cases (everything sold was re-acquired and is
         // still held): the tool's own figure is then the whole loss, and the
         // oracle needs no rounding of its own. Partial ratios are c02_amount's.
@@ -610,6 +653,7 @@ bk_harness! {
 // a division leaves behind).
 bk_harness! {
     #[kani::unwind(5)]
+    #[kani::stub(crate::portfolio::bookkeeping::superficial_loss::get_superficial_loss_ratio, spec_scan)]
     fn c05_tiny_loss_does_not_panic() {
         let x = any_in(1, 3); let n = any_in(1, 3);
         let m = any_in(1, 60000);       // loss = m * 10^-12
@@ -620,6 +664,8 @@ bk_harness! {
             tx(aff(0), date(SALE_DAY), 1, sell(pos(n, 0), gez(1, 0), gez(0, 0), cad(), None, None)),
         ];
         // any outcome but a panic is acceptable here
+        let held = bd - n;
+        unsafe { SPEC_SFL = (true, min3i(n, x, held), n, held, -1); }
         let r = get_delta_superficial_loss_info(1, &txs, &st, neg(-m, 12));
         vcover!("returned");
         core::mem::forget(r); core::mem::forget(txs); core::mem::forget(st);
